@@ -231,7 +231,7 @@ func C17() int {
 		}
 		return append(n, "cluster-status-500", "cluster-reset", "cluster-garbage-json", "none")
 	}())
-	c.Set("race_reports", s.RaceReports())
+	raceVerdict(s, c)
 	if c.Counter("cli_cases") < len(cases) {
 		c.Inconclusive("not every case was run through the CLI")
 	}
